@@ -63,6 +63,10 @@ def run(out, tier, seed, proof):
     n = 16 if tier == "quick" else 200
     seqs = [gen_seq(rng) for _ in range(n)]
     seqs.append([{"kind": "decorated", "kwargs": {"capture": "no"}}, {"kind": "decorated", "kwargs": {"capture": "no"}}])   # F11 witness
+    # the same project three times with an in-memory database: nothing is remembered from build to build
+    seqs.append([{"kind": "ok", "kwargs": {"capture": "no", "memdb": True}} for _ in range(3)])
+    seqs.append([{"kind": "ok", "kwargs": {"capture": "fd", "memdb": True}}, {"kind": "fail", "kwargs": {"capture": "fd", "memdb": True}},
+                 {"kind": "ok", "kwargs": {"capture": "fd", "memdb": True}}])
     chunks = [seqs[i::JOBS] for i in range(JOBS)]
     with ThreadPoolExecutor(max_workers=JOBS) as ex:
         res = [r for rr in ex.map(lambda ch: run_impl_worker("impl_process.py", ch, timeout=3000) if ch else [], chunks) for r in rr]
